@@ -119,6 +119,10 @@ pub fn check(sh: &Shared, c: &Case) -> Check {
                 let f = fmts::e(fi);
                 (guard(|| f.parse::<Narsese>(&s2).is_ok()).ok(), guard(|| f.parse::<Truth>(&s2).is_ok()).ok())
             });
+            let Ok(got) = got else {
+                sh.class("inconclusive/context-thread-not-started");
+                continue;
+            };
             match got {
                 None => fail!("context:thread-died", "input {s:?}: the thread parsing inside {ctx:?} died"),
                 Some(g) if g != here => fail!("context:outcome-differs", "input {s:?}\n(parse<Narsese> ok, parse<Truth> ok) here = {here:?}, inside {ctx:?} = {g:?} (None = panic)"),
